@@ -39,6 +39,7 @@ type oblig struct {
 	goalSk  string   // goal with positive universal quantifiers skolemised
 	insts   []string // ground instances of quantified hypotheses at the skolem constants
 	hasQ    bool
+	cands   []binder // extra instantiation candidates (ghost loop counters, ...)
 	ground  bool     // discharged by the ground (quantifier-free hypotheses) query
 	kfEntry *knownFinding
 }
@@ -103,6 +104,7 @@ type state struct {
 	defers  []*ssa.Defer
 	dead    bool
 	curLoopPre *state
+	cands   []binder
 }
 
 type loopCtx struct {
@@ -142,6 +144,7 @@ func (s *state) clone() *state {
 	}
 	n.hints = append([]string(nil), s.hints...)
 	n.defers = append([]*ssa.Defer(nil), s.defers...)
+	n.cands = append([]binder(nil), s.cands...)
 	return &n
 }
 
